@@ -18,10 +18,11 @@ func init() {
 			"{9P2000, 9P2000.u, 9P2000.L, 9P1999, '', 9P2000.u.1, 300 bytes}; the Rversion is judged (msize = min, refusal below IOHDRSZ, .u only if both asked); then, on the negotiated connection and " +
 			"through recycled reply buffers allocated before the negotiation: Tattach, Tstat with stat sizes straddling msize, Twalk with 0..16 qids, Tread with counts 0..L, implementation errors with texts " +
 			"of 0..500 bytes — every frame must be <= msize, Rread count <= Tread count, Rstat/Rerror must decode in the negotiated dialect and not in the other; finally announced frame sizes " +
-			"0..6, msize (accepted), msize+1, 2^16, 2^31, 2^32-1 must drop that connection without any invocation while another connection keeps working. Same with the Unix file server for real stat replies. " +
+			"0..6, msize (accepted), msize+1, 2^16, 2^31, 2^32-1 must drop that connection without any invocation while another connection keeps working; the same reply battery after traffic that preceded the Tversion and after a second and third, lower, negotiation " +
+			"(reply buffers allocated under the larger limit). Same with the Unix file server for real stat replies. " +
 			"distinct = (server msize, client msize, dialects, version string class) and (msize, reply kind, size class)",
 		Assumptions: []string{
-			"one Tversion per connection, sent with no request outstanding",
+			"a Tversion is only sent with no request outstanding; a later Tversion may only lower the msize (the statement defines msize as a minimum)",
 			"the size of frames the client library sends is not judged (the statement bounds what the server sends and accepts)",
 		},
 		Cases:       c12Cases,
@@ -144,6 +145,61 @@ func c12Grid(ctx *core.Ctx, smsize uint32, sdotu bool, thorough bool) core.Resul
 			c12BadSizes(&res, s, want, r.Version == "9P2000.u", cm, ver, det)
 			otherOK(fmt.Sprintf("sessions with msize %d", want))
 			c.Hangup()
+		}
+	}
+	// reply buffers allocated before the limit was lowered: by requests that precede the (first) Tversion, by an
+	// earlier, larger negotiation, pipelined so that several buffers exist
+	if eff >= 256 {
+		for _, small := range []uint32{64, 100, 128} {
+			if small >= eff {
+				continue
+			}
+			for _, how := range []string{"traffic-before-version", "renegotiate-lower", "renegotiate-twice"} {
+				ver := "9P2000"
+				if sdotu {
+					ver = "9P2000.u"
+				}
+				c := s.Dial()
+				res.Evals++
+				det := map[string]interface{}{"server_msize": eff, "server_dotu": sdotu, "client_msize": small, "version": ver, "scenario": how}
+				pipelined := func(n int, base uint16) {
+					var ms []*wire.Msg
+					for i := 0; i < n; i++ {
+						ms = append(ms, &wire.Msg{Type: wire.Tattach, Tag: base + uint16(i), Fid: uint32(500 + int(base) + i), Afid: wire.NOFID, Uname: "root", Nuname: 0, Aname: "pre"})
+					}
+					_ = c.Send(ms...)
+					for _, m := range ms {
+						c.WaitTag(m.Tag, W)
+					}
+				}
+				switch how {
+				case "traffic-before-version":
+					pipelined(12, 100)
+				case "renegotiate-lower":
+					c.Version(eff, ver, W)
+					pipelined(12, 100)
+				case "renegotiate-twice":
+					c.Version(eff, ver, W)
+					pipelined(6, 100)
+					c.Version(eff/2+30, ver, W)
+					pipelined(6, 200)
+				}
+				rep, err := c.Version(small, ver, W)
+				if err != nil || rep.Msg == nil || rep.Msg.Type != wire.Rversion {
+					res.Violate("C12;version-no-reply;"+how, fmt.Sprintf("Tversion msize=%d (%s) got %v / %v", small, how, rep, err), det)
+					c.Hangup()
+					continue
+				}
+				if rep.Msg.Msize != small {
+					res.Violate("C12;msize-not-min;"+how, fmt.Sprintf("Rversion msize=%d after %s, expected %d", rep.Msg.Msize, how, small), det)
+				}
+				// several sessions' worth of replies so that every pooled buffer comes round
+				for k := 0; k < 3; k++ {
+					c12Session(ctx, &res, s, c, small, rep.Msg.Version == "9P2000.u", det)
+				}
+				res.Sig(fmt.Sprintf("stale|%d|%v|%d|%s", eff, sdotu, small, how))
+				c.Hangup()
+			}
 		}
 	}
 	res.Sample(map[string]interface{}{"server_msize": eff, "server_dotu": sdotu, "client_msizes": cms, "versions": len(versions)})
